@@ -162,10 +162,15 @@ def example_matches(desc: dict, example: dict) -> bool:
 # --------------------------------------------------------------------------
 # writing sessions
 # --------------------------------------------------------------------------
+ON_WRITE = None  # optional callback(ex_id) right before every write_example
+
+
 def write_runs(filler_ctx, desc: dict, runs: list, delay_s: float = 0.0) -> None:
     """runs: list of [split, [ids...], metadata-or-None]"""
     for split, ids, meta in runs:
         for ex_id in ids:
+            if ON_WRITE is not None:
+                ON_WRITE(ex_id)
             kwargs = {}
             if meta is not None:
                 kwargs["custom_metadata"] = meta
